@@ -336,9 +336,13 @@ package server
 // expiry of the restart timer - a reconnection attempt that fails inside the window is not one
 //@ props C09
 //@ func clearedNeighborState
+//@   tag C09 C07
 //@   requires conf != nil
 //@   modifies nothing
-//@   ensures result.NeighborAddress == conf.Config.NeighborAddress && result.PeerAs == conf.Config.PeerAs && result.LocalAs == conf.Config.LocalAs && result.PeerType == conf.Config.PeerType
+// from C07 "the reported session/admin state always matches the real one": the address the neighbour is known by is
+// part of its state only for dynamic and unnumbered neighbours (no configured address) - clearing keeps it
+//@   ensures result.NeighborAddress == conf.State.NeighborAddress
+//@   ensures result.PeerAs == conf.Config.PeerAs && result.LocalAs == conf.Config.LocalAs && result.PeerType == conf.Config.PeerType
 //@   ensures conf.Config.PeerType == oc.PEER_TYPE_EXTERNAL ==> result.RemovePrivateAs == conf.Config.RemovePrivateAs
 //@ props C12
 //@ func (*BgpServer).handleFSMMessage
